@@ -59,8 +59,9 @@ FLOAT_BOUNDS = [0.0, -0.0, 1.5, -2.25, float("inf"), float("-inf"), float("nan")
 DOUBLE_BOUNDS = [0.0, -0.0, 1.5, 0.1, -1e308, 5e-324, 1.7976931348623157e308, float("inf"),
                  float("-inf"), float("nan"), 2.0**53 + 2]
 STRING_BOUNDS = ["", "a", "héllo", "\U0001F600x", "\x00", 'q"uo\\te\n', "x" * 130, "中文",
-                 "\ufeffbom", "\ufeff", "a\ufeff", "\ud7ff\ue000\uffff", "\U0010ffff", "\u2028\u2029", "\x7f\x80\x9f", " lead and trail "]
-BYTES_BOUNDS = [b"", b"\x00", b"\x80\xff", b"abc", bytes(range(256))[100:240], b"\xff" * 3]
+                 "\ufeffbom", "\ufeff", "a\ufeff", "\ud7ff\ue000\uffff", "\U0010ffff", "\u2028\u2029", "\x7f\x80\x9f", " lead and trail ",
+                 "y" * 126, "y" * 127, "z" * 128, "é" * 64]  # encoded lengths around the 1-byte / 2-byte length-prefix boundary
+BYTES_BOUNDS = [b"", b"\x00", b"\x80\xff", b"abc", bytes(range(256))[100:240], b"\xff" * 3, b"\x01" * 127, b"\x02" * 128, b"\x03" * 126]
 TS_BOUNDS = [(0, 0), (1, 0), (-1, 0), (0, 1000), (-1, 999999000), (0, 999999000), (TS_MIN_S, 0),
              (TS_MAX_S, 999999000), (1700000000, 123456000), (-1700000000, 1000), (951782400, 0),
              (1700000001, 5000000), (7, 50000000), (-7, 500000000), (1, 1000000), (2, 99000000), (3, 100000)]
